@@ -49,6 +49,16 @@ int main(void)
 				       (unsigned long long) ext2fs_descriptor_block_loc2(&fsb, fdb, g),
 				       (unsigned long long) ext2fs_descriptor_block_loc2(&fsb, fdb + bpg, g));
 			printf("END\n");
+		} else if (!strcmp(cmd, "L2")) {
+			/* L2 <bg0> <bg1> <group count> <n>: ext2fs_list_backups on a sparse_super2 filesystem */
+			struct struct_ext2_filsys fsb; struct ext2_super_block sb;
+			unsigned long long b0, b1, gdc; int n, i; unsigned int three = 1, five = 5, seven = 7;
+			sscanf(line, "%*s %llu %llu %llu %d", &b0, &b1, &gdc, &n);
+			memset(&fsb, 0, sizeof fsb); memset(&sb, 0, sizeof sb);
+			fsb.magic = EXT2_ET_MAGIC_EXT2FS_FILSYS; fsb.super = &sb; fsb.group_desc_count = gdc;
+			sb.s_feature_compat |= EXT4_FEATURE_COMPAT_SPARSE_SUPER2; sb.s_backup_bgs[0] = b0; sb.s_backup_bgs[1] = b1;
+			for (i = 0; i < n; i++) printf("%u\n", ext2fs_list_backups(&fsb, &three, &five, &seven));
+			printf("END\n");
 		} else if (!strcmp(cmd, "L")) {
 			int n, i; dgrp_t three = 1, five = 5, seven = 7;
 			sscanf(line, "%*s %d", &n);
